@@ -22,7 +22,7 @@ def kind(v):
         return "list"
     if isinstance(v, tuple):
         return {"set": "set", "map": "map", "date": "date",
-                "pat": "pattern"}[v[0]]
+                "pat": "pattern", "obj": "object", "node": "node"}[v[0]]
     raise TypeError(v)
 
 
@@ -40,8 +40,12 @@ def equal(a, b):
         return True
     if ka in ("boolean", "string"):
         return a == b
-    if ka in ("date", "pattern"):
+    if ka in ("date", "pattern", "node"):
         return a[1] == b[1]
+    if ka == "object":
+        # same member names with equal values, whatever the member order
+        da, db = dict(a[1]), dict(b[1])
+        return set(da) == set(db) and all(equal(da[n], db[n]) for n in da)
     if ka == "list":
         return len(a) == len(b) and all(equal(x, y) for x, y in zip(a, b))
     if ka == "set":
